@@ -8,6 +8,7 @@ import (
 	"bytes"
 	"encoding/json"
 	"fmt"
+	"io"
 	"strconv"
 	"strings"
 
@@ -143,17 +144,41 @@ func unmarshalJSON[T constraint.ParserInput](input T, r Rule) (Size, error) {
 		if err != nil {
 			return 0, newParseError(defaultParserFuncName, input, err)
 		}
+		if _, err = d.Token(); err != nil { // closing brace of object is required
+			return 0, newParseError(defaultParserFuncName, input, err)
+		}
+		if err = expectEOF(d); err != nil {
+			return 0, newParseError(defaultParserFuncName, input, err)
+		}
 		return size, nil
 	case json.Number:
+		if err = expectEOF(d); err != nil {
+			return 0, newParseError(defaultParserFuncName, input, err)
+		}
 		return unmarshalText([]byte(v), 0)
 	case string:
 		if r&RuleEnableJSONStringForm == 0 {
 			return 0, newParseError(defaultParserFuncName, input, ErrStringFormDisabled)
 		}
+		if err = expectEOF(d); err != nil {
+			return 0, newParseError(defaultParserFuncName, input, err)
+		}
 		return unmarshalText([]byte(v), 0)
 	default:
 		return 0, newParseError(defaultParserFuncName, input, fmt.Errorf("%w: expected json.Delim, json.Number or string instead of %T", ErrInvalidType, t))
 	}
+}
+
+// expectEOF returns error if any data follows already read JSON value.
+func expectEOF(d *json.Decoder) error {
+	t, err := d.Token()
+	if err == io.EOF {
+		return nil
+	}
+	if err != nil {
+		return err
+	}
+	return fmt.Errorf("%w: %v", ErrUnexpectedData, t)
 }
 
 func prepareNumber(input string) (number, unit string) {
